@@ -427,6 +427,7 @@ func init() {
 			"space A = every ORDERED tuple of 2 and of 3 alternatives, an alternative being any ordered sequence of literals (positive/negated) over distinct predicates out of 3 (79 alternatives incl. the empty one; 6 241 pairs, 493 039 triples); " +
 			"space B = alternatives over 4 predicates listed in index order with each literal in {absent, positive, negated} (81 alternatives): every ordered pair (6 561) and ordered triple (531 441); thorough adds every multiset of 4 such alternatives (1 929 501) with one seeded random order. " +
 			"For every accepted set all 16 truth assignments are evaluated: whenever exactly one alternative's conjunction holds, the decision list (Cases in order, then DefaultTarget - as applyRule evaluates it) must select it; every set with two jointly satisfiable alternatives, or whose predicate orders admit no common total order, must be rejected with the lookahead error. " +
+			"End to end: decision trees over 1-3 predicates (each predicate accepts the tokens whose index has its bit set, so the next token selects the truth assignment) are written as textmapper grammars with (?= ...) alternatives, both directly in the input rule and nested inside another lookahead predicate, under cancellable x recursiveLookaheads x optimizeTables, generated, built and run; the alternative reported by the generated parser must be the leaf the assignment selects. " +
 			"Additional random carriers with 3-5 alternatives competing in different subsets on 1-3 terminals (merges arriving in different orders, shared rules). Non-trivial = an accepted set (decision list checked on all assignments); distinctness by the set",
 		Assumptions: []string{
 			"a predicate's outcome is an independent boolean (the oracle quantifies over all assignments)",
@@ -438,13 +439,21 @@ func init() {
 			if tier == "thorough" {
 				n += nB + 64
 			}
-			return n
+			return n + c08E2ECases(tier)
 		},
 		Exhaustive: func(string) bool { return true },
 		CPUBudget:  900,
 		Run: func(c *fw.Ctx) {
 			lalrTune()
 			i := c.Case
+			base := 1 + nA + nB + 16
+			if c.Tier == "thorough" {
+				base += nB + 64
+			}
+			if i >= base {
+				c08E2E(c) // generated parsers: the decision code itself (applyRule / lookaheadRule)
+				return
+			}
 			switch {
 			case i == 0: // all ordered pairs of both spaces
 				for a := 0; a < nA; a++ {
@@ -512,6 +521,7 @@ func init() {
 		},
 		MinNontrivial: func(tier string) int { return 5000 },
 		RequiredCounters: []string{"space_A_pairs", "space_A_triples", "space_B_pairs", "space_B_triples", "sets_accepted", "sets_accepted_with_2_alternatives", "sets_accepted_with_3_alternatives",
-			"sets_accepted_with_4_alternatives", "sets_rejected_as_required", "sets_not_mutually_exclusive", "sets_inconsistently_ordered", "assignments_with_exactly_one_alternative", "random_multi_terminal_carriers"},
+			"sets_accepted_with_4_alternatives", "sets_rejected_as_required", "sets_not_mutually_exclusive", "sets_inconsistently_ordered", "assignments_with_exactly_one_alternative", "random_multi_terminal_carriers",
+			"e2e_decisions_checked", "e2e_nested_decisions_checked", "e2e_grammars_recursive_cancellable"},
 	})
 }
